@@ -11,7 +11,13 @@
 // evaluated on it. A second family of cases (matrix.go) crosses the shutdown-timeout configuration
 // {0 = no limit, shorter than the in-flight work, long} with in-flight work that outlasts a short
 // timeout (slow origin, large body to a slow reader, open tunnel) on rigs a and b, and drives the API
-// server (forwarder.HTTPServer, rig "s": same shutdownContext) the same way (server.go).
+// server (forwarder.HTTPServer, rig "s": same shutdownContext) the same way (server.go). A third family
+// (ctl.go) issues HISTORIES of control calls instead of one: on rig b sequences of 1-4 calls over
+// {Shutdown(short context), Shutdown(long), Shutdown(no deadline), Shutdown(cancelled by its caller), Close},
+// one after the other and overlapping, against connections that do not drain by themselves (idle keep-alive,
+// request parked at the origin, open tunnel, request head half sent), every call's result judged on its own;
+// on rig a the drain of HTTPProxy.Run ended early by a second shutdown signal (ShutdownSignals = SIGUSR1,
+// delivered to the child process that hosts the proxy), by the shutdown timeout, or not at all.
 package c11
 
 import (
@@ -37,13 +43,17 @@ type Case struct {
 	PP            bool         `json:"pp,omitempty"`       // a: PROXY-protocol listener (every client sends a v1 header first)
 	TimeoutMs     int          `json:"timeout_ms"`         // shutdown timeout (a, s: config, 0 = no limit as --shutdown-timeout documents; b: context deadline, 0 = a context that is never done)
 	Upstream      bool         `json:"upstream,omitempty"` // everything the proxy sends goes through a scripted upstream HTTP proxy (CONNECT: its 200 is what a "dial" connection waits for)
-	Family        string       `json:"family,omitempty"`   // "latedial" (latedial.go); "" = general generator / matrix
+	Family        string       `json:"family,omitempty"`   // "latedial" (latedial.go) | "ctl", "runend" (ctl.go); "" = general generator / matrix
 	Matrix        string       `json:"matrix,omitempty"`   // shutdown-timeout matrix (matrix.go): "none" (timeout 0) | "short" (shorter than the in-flight work) | "long"; "" = general generator
 	Op            string       `json:"op"`                 // b: "shutdown" | "close" | "shutdown+close" (Close called while Shutdown waits)
 	ListenerFirst bool         `json:"listener_first"`     // b: close the listener before Shutdown (as HTTPProxy.run does) or after it returned
 	Trigger       string       `json:"trigger"`            // "ready": once every script reached its phase; "race": DelayUs after launching them
 	DelayUs       int          `json:"delay_us"`
 	Conns         []ConnScript `json:"conns"`
+	// control-call histories (ctl.go)
+	Calls    []Call `json:"calls,omitempty"`     // rig b: the calls made instead of Op (Family "ctl")
+	End      string `json:"end,omitempty"`       // rig a, Family "runend": what ends the drain: "signal" (a second shutdown signal SignalMs after the cancellation) | "timeout" | "drain"
+	SignalMs int    `json:"signal_ms,omitempty"` // rig a, End "signal"
 	// rig "c" (micro.go): Trials tiny shutdowns over an in-memory listener, parameters drawn from MicroSeed
 	Trials    int    `json:"trials,omitempty"`
 	MicroSeed uint64 `json:"micro_seed,omitempty"`
@@ -77,6 +87,7 @@ type ConnScript struct {
 	NoBody      bool   `json:"no_body,omitempty"`  // origin: the in-flight request is answered 204 (martian's header-only writer)
 	PauseMs     int    `json:"pause_ms,omitempty"` // slowread: pause of the reader before each 64 KiB (0 = 2 ms)
 	HoldMs      int    `json:"hold_ms,omitempty"`  // tunnel, dial: echo traffic goes on for this long after closing is known, before After
+	Park        bool   `json:"park,omitempty"`     // origin: the origin keeps the request until the case is over (the exchange never drains)
 }
 
 func (c *Case) key() string { b, _ := json.Marshal(c); return string(b) }
